@@ -8,3 +8,5 @@ import VibeProof.Props.C23
 #print axioms VibeProof.C23.C23_ranked_graph_acyclic
 #print axioms VibeProof.C23.C23_parser_unguarded_calls_ranked
 #print axioms VibeProof.C23.C23_parser_recursion_guarded
+#print axioms VibeProof.C23.C23_chain_depth_bounded
+#print axioms VibeProof.C23.C23_tree_building_loops_count_every_link
